@@ -32,16 +32,12 @@ const AUDITED_FILES: [&str; 9] = ["atomic64.rs", "vec.rs", "histogram.rs", "regi
 /// and facility: `std::sync::Mutex`, `parking_lot::RwLock`, `AtomicBool`, `thread_local!`, ...
 /// (types that carry no synchronisation of their own, like `Arc` or `TryLockError`, are not items).
 pub fn hook_audit_items() -> std::collections::BTreeMap<String, Vec<String>> {
-    let std_prims = [
-        "Mutex", "RwLock", "Condvar", "Barrier", "Once", "OnceLock", "LazyLock", "mpsc", "AtomicBool", "AtomicUsize", "AtomicIsize", "AtomicU64",
-        "AtomicI64", "AtomicU32", "AtomicI32", "AtomicU16", "AtomicI16", "AtomicU8", "AtomicI8", "AtomicPtr", "fence", "compiler_fence",
-    ];
-    let pl_prims = ["Mutex", "RwLock", "Condvar", "Once", "ReentrantMutex", "FairMutex", "const_mutex", "const_rwlock"];
+    // What the verification copy (hooked_copy.py) does NOT route through the hooks. std's Mutex and integer / bool
+    // atomics and parking_lot's RwLock are replaced by reporting ones there and are therefore not listed.
+    let std_prims = ["RwLock", "Condvar", "Barrier", "Once", "OnceLock", "LazyLock", "mpsc", "AtomicPtr", "AtomicI16", "AtomicI8", "compiler_fence"];
+    let pl_prims = ["Mutex", "Condvar", "Once", "ReentrantMutex", "FairMutex", "const_mutex", "const_rwlock"];
     // names that always mean a facility outside the hooks, wherever they come from
-    let bare = [
-        "AtomicBool", "AtomicUsize", "AtomicIsize", "AtomicU32", "AtomicI32", "AtomicU16", "AtomicI16", "AtomicU8", "AtomicI8", "AtomicPtr", "Condvar",
-        "Barrier", "OnceLock", "OnceCell", "LazyLock", "UnsafeCell", "SyncUnsafeCell",
-    ];
+    let bare = ["AtomicPtr", "AtomicI16", "AtomicI8", "Condvar", "Barrier", "OnceLock", "OnceCell", "LazyLock", "UnsafeCell", "SyncUnsafeCell"];
     // (spin_loop, yield_now and sleep are scheduling hints, not synchronisation: the stutter rules deal with the loops around them)
     let phrases = ["thread_local!", "lazy_static", "once_cell", "crossbeam", "static mut", "thread::park", "thread::spawn"];
     let idents = |s: &str| -> Vec<String> { s.split(|c: char| !(c.is_alphanumeric() || c == '_')).filter(|w| !w.is_empty()).map(String::from).collect() };
@@ -95,6 +91,10 @@ pub fn hook_audit_items() -> std::collections::BTreeMap<String, Vec<String>> {
                 if item.contains(ph) {
                     found.insert(ph.to_string());
                 }
+            }
+            // `use std::{sync::atomic::AtomicBool, ...}`: the nested form is not rewritten by hooked_copy.py
+            if (item.contains("std::{") || item.contains("core::{")) && item.contains("sync") {
+                found.insert("nested import of std::sync (write `use std::sync::...` so that it is routed through the hooks)".to_string());
             }
             items.extend(found);
         }
